@@ -1888,14 +1888,15 @@ int sm2_z256_point_to_uncompressed_octets(const SM2_Z256_POINT *P, uint8_t out[6
 
 int sm2_z256_point_from_octets(SM2_Z256_POINT *P, const uint8_t *in, size_t inlen)
 {
+	if (!P || !in || !inlen) {
+		error_print();
+		return -1;
+	}
 	switch (*in) {
 	case SM2_point_at_infinity:
-		if (inlen != 1) {
-			error_print();
-			return -1;
-		}
-		sm2_z256_point_set_infinity(P);
-		break;
+		// every caller imports a public key or a key-agreement share, which must not be the point at infinity
+		error_print();
+		return -1;
 	case SM2_point_compressed_y_even:
 		if (inlen != 33) {
 			error_print();
